@@ -8,13 +8,18 @@
  * MODE 3: thread a = bind C || thread b = cancel TARGET || thread c = cancel TARGET2
  * MODE 4: thread a = bind C on td0                               ||  thread b = bind the same C on td1
  * MODE 5: thread a = destroy C (pre-bound)                       ||  thread b = cancel TARGET
+ * MODE 7: thread a = reset P, cancel P again (P was cancelled before, C bound beneath it) || thread b = bind a NEW child D under P
  * MODE 6: thread a = bind_to_impl(C) only (the hand-shake)       ||  thread b = cancel TARGET  (with CUT_WALK; SC and TSO units)
  * Oracle at quiescence: X cancelled  <=>  X or one of its ancestors (final my_parent chain) was the target of a cancel call;
  * for each target exactly one caller got `true`; C ends bound under P in the binder's list; all locks free. */
 #include "w.h"
 #include "vp.h"
-#define WAIT_FN _ZN3tbb6detail2d115waitable_atomicIbE4waitEbmSt12memory_order
+#if MODE == 7
+#define NC 7
+#else
 #define NC 6
+#endif
+#define D_ 6
 #define DEF 0
 #define G_ 1
 #define P_ 2
@@ -38,20 +43,7 @@
 #endif
 typedef struct S_class_tbb__detail__d1__task_group_context ctx_t;
 
-/* ---- external boundaries ---- */
-u8* _ZN3tbb6detail2r122cache_aligned_allocateEm(u64 n) { u8* p = vp_static_alloc(n); return p ? p : vpx_malloc(n); }
-void _ZN3tbb6detail2r124cache_aligned_deallocateEPv(u8* p) { vpx_free(p); }
-/* FPU control word capture (inline asm in the real code): contents irrelevant to the property */
-void _ZN3tbb6detail2d111cpu_ctl_env7get_envEv(struct S_struct_tbb__detail__d1__cpu_ctl_env* e) { (void)e; }
-/* TLS: the calling model thread's thread_data (governor::get_thread_data) */
-u8* vpx_pthread_getspecific(u32 key) { (void)key; return (u8*)vp_td(vp_cur); }
-void _ZN3tbb6detail2r18governor20init_external_threadEv(void) { VP_ASSERT(0, "auto-initialisation reached: thread_data lookup failed"); }
-/* d1::mutex slow path, waitable_atomic<bool>::wait(old, ctx, order) (cut): returns once the flag differs from `old`;
-   until then the caller sleeps (spin + wait_on_address; wake-up delivery itself is property C02's subject) */
-void WAIT_FN(struct S_class_tbb__detail__d1__waitable_atomic* w, u8 old, u64 c, u32 order) {
-  (void)c; (void)order; if ((vp_flag_of(w) & 1) == (old & 1)) VP_BLOCK();
-}
-void _ZN3tbb6detail2r121notify_by_address_oneEPv(u8* addr) { (void)addr; }
+#include "c04_stubs.h"
 
 #ifdef CUT_WALK
 /* thread_data::propagate_task_group_state (per-thread list walk) is cut in this unit: the stub only records that the
@@ -127,6 +119,17 @@ int main(void) {
   vp_thr_bindimpl_a_start(vp_ctx(C_), vp_td(BIND_T), 0);
   vp_thr_cancel_b_start(vp_ctx(TARGET), 1);
   requested[TARGET] = 1;
+#elif MODE == 7   /* reuse: P (cancelled, child C bound) is reset and cancelled again || a new child D is bound under P */
+#define TA (1 - BIND_T)
+#define TB BIND_T
+#define THA vp_thr_recancel_a
+#define THB vp_thr_bind_b
+  vp_set_current(BIND_T, P_); vp_bind_seq(C_, BIND_T);
+  VP_ASSERT(vp_cancel_seq(P_) == 1 && vp_cancelled(P_) == 1 && vp_cancelled(C_) == 1, "setup: first cancel of P reached C");
+  vp_ctx_new(D_, 1);
+  vp_thr_recancel_a_start(vp_ctx(P_), 0);
+  vp_thr_bind_b_start(vp_ctx(D_), vp_td(BIND_T), 1);
+  requested[P_] = 1;                                        /* the cancel after the reset is the one in force at the end */
 #elif MODE == 4   /* two threads bind the same context C (each inside a task of P on its own thread_data) */
 #define TA 0
 #define TB 1
@@ -157,7 +160,7 @@ int main(void) {
   vp_thr_cancel_c_start(vp_ctx(TARGET2), 2);
   requested[TARGET] = 1; requested[TARGET2] = 1;
 #endif
-#if MODE >= 1 && MODE <= 6
+#if MODE >= 1 && MODE <= 7
   /* free rounds: context switch points chosen by the solver; ORDER selects which thread moves first in a round.
      OBS_A: ghost for the reachability witness WITNESS_SLOW (binder parked on the propagation mutex = it took the
      epoch-mismatch path of bind_to_impl while a propagation was in flight) */
@@ -213,6 +216,11 @@ int main(void) {
 #endif
 #ifdef WITNESS_SLOW   /* this query is only about executions in which the binder waited on the propagation mutex */
   __CPROVER_assume(slow_wait_seen);
+#endif
+#if MODE == 7
+  VP_ASSERT(bound_done == 1 && vp_state(D_) == 3 && vp_parent(D_) == vp_ctx(P_), "bind_to did not leave D bound under P");
+  VP_ASSERT(vp_in_list(D_, BIND_T) && vp_in_list(C_, BIND_T), "children not registered in the binder's context list");
+  VP_ASSERT(returned[0] && won[0], "cancel of a reset (not cancelled) context must return true");
 #endif
 #if MODE == 6
   VP_ASSERT(bound_done == 1 && vp_parent(C_) == vp_ctx(P_), "bind_to_impl did not link C under P");
